@@ -3,6 +3,7 @@ CONSTANTS
   Locked = TRUE
   Bodies <- BodiesTwice
   Modes <- AllModes
+  ValueChoices <- TwoValueLists
   Seconds <- SecondsQ
   TickMs <- Ticks1
   MaxTicks = 2
